@@ -10,6 +10,8 @@ CONSTANTS
   PhraseSets <- PS_None
   InitShared = {{"D1", "D2", "D4"}, {"D1", "D4"}}
   FriendUsers = {}
+  InitSess = {TRUE}
+  MaxSess = 0
   MaxCfg = 2
   MaxReq = 1
   MaxEnv = 0
@@ -19,6 +21,7 @@ CONSTANTS
   DirReplyLocks = TRUE
   ScanDirCycles = TRUE
   AlwaysAccumulate = FALSE
+  TickReportsAlways = TRUE
   FlagsTakenAtStart = TRUE
   RevertWithinTick = FALSE
 INVARIANT TypeOK
